@@ -39,6 +39,7 @@ def run(rep, tier):
     # an undefined name in a loop header is refused because the header is evaluated before the loop variable exists
     from . import c06
     common.guarded(rep, "C06.3", c06.eager_header, rep, ix)
+    common.guarded(rep, "C06.3", c06.c06_3, rep, ix, G)          # the values that are type-checked are the header's own (no coercing conversion of the collected list)
     rep.rule("C07.4", "include call checks (arity, template / keyword set) dominate the expansion (shared with C07)", floor=64)
     common.guarded(rep, "C07.4", c07.c07_4, rep, ix)
     common.guarded(rep, "C11.7", c11_7, rep, ix)
